@@ -320,6 +320,11 @@ def run_c22(ctx):
     else:
         if not ctx.quick:
             vlib.tlc(ctx, "PackageWalk", "MC_PackageWalk_sanity.cfg", workers=8)
+            # the model of the code before the `fix:` commit (Repaired = {}) must still exhibit the recorded flaw
+            k = vlib.tlc(ctx, "PackageWalk", "MC_PackageWalk_known.cfg", workers=8, allow_violation=True)
+            if k.invariant != "CodeModelConforms":
+                raise vlib.Infra("MC_PackageWalk_known.cfg no longer violates CodeModelConforms (got %r)" % k.invariant)
+            ctx.extra["known_flaw_cfg"] = "MC_PackageWalk_known.cfg: CodeModelConforms violated as expected (blacklist string-prefix, fixed in the code)"
         r = _tlc(ctx, "PackageWalk", "GEN_PackageWalk_quick.cfg" if ctx.quick else "GEN_PackageWalk_thorough.cfg",
                      workers=16, timeout=300 if ctx.quick else 3000)
         cases = [_conv_walk(c) for c in r.cases]
